@@ -44,7 +44,18 @@ def name_of_url(url, base):
     return scenario.url_to_name(url, base)
 
 
-def run_observed(ws, sch, rec, item):
+def make_loader(sch, opts):
+    import ZConfig.loader
+    if opts:
+        from ZConfig import cmdline
+        ld = cmdline.ExtendedConfigLoader(sch)
+        for o in opts:
+            ld.addOption(o)
+        return ld
+    return ZConfig.loader.ConfigLoader(sch)
+
+
+def run_observed(ws, sch, rec, item, loader=None):
     import ZConfig
     base = ws.materialise(item["files"])
     main = os.path.join(base, item["main"])
@@ -55,7 +66,10 @@ def run_observed(ws, sch, rec, item):
         flt = ((lambda url, t=target: url == t), n)
     with obs.Observer(fault=flt) as o:
         try:
-            cfg, _ = ZConfig.loadConfig(sch, main, overrides=list(item["opts"]))
+            if loader is not None:
+                cfg, _ = loader.loadURL(main)
+            else:
+                cfg, _ = ZConfig.loadConfig(sch, main, overrides=list(item["opts"]))
             out = {"r": "ok", "tree": project.proj_section(cfg, rec, top=True)}
         except (obs.Injected, KeyError) as e:
             out = {"r": "err", "kind": "fault", "exc": type(e).__name__}
@@ -66,7 +80,12 @@ def run_observed(ws, sch, rec, item):
 
 
 def compare(ws, sch, rec, item, emit):
-    got, ev, closed = run_observed(ws, sch, rec, item)
+    # a failing load and the clean load after it go through ONE loader object (as an application that
+    # re-reads its configuration does); every other scenario through the module-level entry point
+    shared = None
+    if item["twin"] is not None and emit["o"]["r"] == "err" and not item["opts"]:
+        shared = make_loader(sch, item["opts"])
+    got, ev, closed = run_observed(ws, sch, rec, item, loader=shared)
     want = emit["o"]
     i = str(scenario._CTX["sc"].items.index(item)) if False else None
     spec_ev = [[k, u.split("/", 1)[1] if "/" in u and not u.startswith("pkg:") else u] for k, u in emit["ev"]]
@@ -85,7 +104,7 @@ def compare(ws, sch, rec, item, emit):
     if why is None and item["twin"] is not None and want["r"] == "err":
         # a failed load leaves nothing behind: the clean twin loads as the specification says
         tw = scenario._CTX["sc"].items[item["twin"]]
-        got2, _, _ = run_observed(ws, sch, rec, tw)
+        got2, _, _ = run_observed(ws, sch, rec, tw, loader=shared)
         w2 = scenario._CTX["outs"][item["twin"]]["o"]
         if got2["r"] != w2["r"] or (got2["r"] == "ok" and project.canon_section(w2["tree"]) != got2["tree"]):
             why = "failed-load-left-something-behind"
